@@ -241,8 +241,6 @@ class C17(Property):
         "`EnumSet` (a set subclass overriding __iter__) stands for a real set in the in-process cases: `sorted(s)`, "
         "`list(s)` and `for x in s` see the chosen order, `set.update(s)` and `x in s` do not depend on it",
         "names (domains, products, rules, qualifier keys) enter the model as ranks in sorted tables",
-        "annotate: the list of the gene's domain names after SecMetQualifier.add_domains is read from the "
-        "implementation (list operations only)",
         "un-modelled modules (rule evaluation, protocluster / candidate / region formation, GenBank and JSON writers) are "
         "covered only by the sampled seeds and allocation histories of the child matrix",
         "filter_results: `uid` = index of the hit in the gene's list; distinct HSP objects (identity equality)",
@@ -366,7 +364,7 @@ class C17(Property):
             yield self.rand_best(rng)
         for _ in range(800 * mult):
             yield self.rand_write(rng)
-        for _ in range(700 * mult):
+        for _ in range(500 * min(mult, 4)):
             yield self.rand_areas(rng)
         if deep:
             yield from self.small_scope()
@@ -636,7 +634,7 @@ class C17(Property):
         case["ps"] = kept
         return case
 
-    REBUILDS = 6
+    REBUILDS = 5
 
     def impl_areas(self, case: Dict[str, Any]) -> Dict[str, Any]:
         from antismash.common.secmet.features.candidate_cluster.formation import create_candidates_from_protoclusters
@@ -723,7 +721,7 @@ class C17(Property):
             return {"k": "defjson", "defs": case["defs"], "impl": obs["out"]}
         if kind == "annotate":
             return {"k": "annotate", "existing": case["existing"], "prev": case["prev"] or [], "defs": case["defs"],
-                    "domains": obs["domains_after"]}
+                    "domains": case["domains"], "impl_domains_after": obs["domains_after"]}
         if kind == "uniq":
             return {"k": "uniq", "cross": obs["cross"], "L": obs["Lkey"], "enum": obs["enum"], "impl": obs["out"]}
         if kind == "best":
@@ -755,23 +753,23 @@ class C17(Property):
             return Judgement(False, same, True, None, False, (kind, "driver-error"), str(drv))
         model = drv["model"]
         corr = obs["out"] == model
+        if kind == "annotate" and drv.get("domains_after") != obs.get("domains_after"):
+            corr = False       # SecMetQualifier.add_domains: the gene's domain ids after the call
         tags = [kind]
         known = None
         in_scope = bool(drv.get("scope", True))
         spec = same and bool(drv.get("spec", True))
-        if kind == "uniq" and drv["tie"]:
-            tags.append("key-tie")
-            # outside the theorem's hypothesis: any listing in key order is as good as the model's
-            corr = corr or bool(drv["spec"])
+        if kind == "uniq" and (drv["tie"] or drv["tie_nocore"]):
+            # `tie`: two members agree on the whole key — outside the theorem's hypothesis;
+            # `tie_nocore`: same product, same coordinates, different cores — decided by the core since D61 (the
+            # model); a tree without fixes/D61 lists them in address order: the open finding until it is applied.
+            # In both classes any listing in (start, -len, product) order is accepted.
+            tags.append("key-tie" if drv["tie"] else "key-tie-without-core")
+            weak = bool(drv["spec"]) or bool(drv["spec_nocore"])
+            corr = corr or weak
+            spec = same and weak
             if not same:
                 known = KF_KEY_TIE
-        elif kind == "uniq" and drv["tie_nocore"]:
-            # same product, same coordinates, different cores: decided by the core since D61 (the model);
-            # a tree without fixes/D61 still lists them in address order — the open finding, until it is applied
-            tags.append("key-tie-without-core")
-            if not (same and corr):
-                known = KF_KEY_TIE
-                corr = True
         if kind == "best":
             if drv["model"] != drv["model_rev"]:
                 return Judgement(False, False, True, None, False, (kind, "model-not-invariant"), str(drv))
@@ -985,7 +983,7 @@ class C17(Property):
             cases.append(self.gen_region(rng))
         for _ in range(6 * scale):
             cases.append(self.gen_ruleset(rng))
-        for _ in range(60 * scale):
+        for _ in range(45 * scale):
             cases.append(self.gen_formation(rng))
         return cases
 
